@@ -131,9 +131,26 @@ def run_wild(pid, seed, n, res):
             ns = [op[k] for k in ('n', 'p', 'c') if k in op] + [l[0] for l in op.get('labels', [])] + \
                  (list(op.get('cur', [])) + list(op.get('nodes', [])) if op['k'] == 'update_surface' else [])
             return all(x < nn for x in ns) and ('a' not in op or op['a'] < na)
+        def has_twin(op):
+            # `list.remove` / `in` compare with ==, and the dataclasses compare field by field: an attacker (node) object
+            # that is value-equal to ANOTHER object stands for that one in CPython, while the translated heap compares
+            # references (the convention under which the ties are proved: distinct objects differ in some field).  Such a
+            # pair can only arise here, outside the invariants (a removed attacker whose name and id a later one took).
+            def twin(x, pool):
+                for y in pool:
+                    if y is x: continue
+                    try:
+                        if y == x: return True
+                    except RecursionError:
+                        return True
+                return False
+            if 'a' in op and twin(im.atts[op['a']], im.atts): return True
+            return any(twin(im.nodes[op[k]], im.nodes) for k in ('n', 'p', 'c') if k in op)
         for i, op in enumerate(ops):
             if not handles_ok(op):               # a handle the prediction of the generator got wrong (after a wild operation)
                 res.bump('wild_history_cut:handle'); break
+            if has_twin(op):
+                res.bump('wild_history_cut:value-equal twin objects'); break
             try:
                 st = im.step(op)
             except Exception as e:               # TypeError / AttributeError …: outside what the preludes model (sentinels)
